@@ -406,6 +406,59 @@ def core_identities(task):
             'checks': ncheck[0], 'points': n}
 
 
+def curvature_symmetry_case(task):
+    """Algebraic symmetries of st_Riemann_down4 and of both constructions of
+    st_Weyl_down4 on spatially UNIFORM data: every finite difference is
+    exactly zero, so the outputs are pure pointwise algebra."""
+    from aurel.core import AurelCore
+    from aurel.finitedifference import FiniteDifference
+    ia, ib, ig, ik, fluid = task
+    alphas = (0.5, 1.0, 3.0)
+    betas = [(0, 0, 0), (0.7, 0, 0), (-0.4, 0.3, 0.6)]
+    G = [m for m in spd_menu() if np.linalg.cond(m) < 50][:4]
+    K = k_menu()[ik]
+    n = 4
+    param = {'Nx': n, 'Ny': n, 'Nz': n, 'xmin': 0., 'ymin': 0., 'zmin': 0.,
+             'dx': 1., 'dy': 1., 'dz': 1.}
+    S = (n, n, n)
+    ones = np.ones(S)
+    inp = {'alpha': alphas[ia] * ones,
+           'betaup3': np.array([b * ones for b in betas[ib]]),
+           'gammadown3': np.array([[G[ig][i, j] * ones for j in range(3)]
+                                   for i in range(3)]),
+           'Kdown3': np.array([[K[i, j] * ones for j in range(3)]
+                               for i in range(3)])}
+    if fluid:
+        inp.update({'rho0': 0.7 * ones, 'eps': 0.2 * ones,
+                    'press': 0.15 * ones})
+    bad = []
+    for first in (None, 'st_Riemann_down4'):
+        with quiet():
+            fd = FiniteDifference(param, boundary='periodic', fd_order=2,
+                                  verbose=False)
+            rel = AurelCore(fd, verbose=False, Lambda=0.2)
+            rel.data.update({k: v.copy() for k, v in inp.items()})
+            rel.freeze_data()
+            if first:
+                rel[first]
+            tensors = {'st_Weyl_down4' + ('/Riemann-cached' if first else
+                                          '/from-EB'): rel['st_Weyl_down4'],
+                       'st_Riemann_down4': rel['st_Riemann_down4']}
+        for name, R in tensors.items():
+            sc = max(np.abs(R).max(), 1e-3)
+            tests = {
+                'antisym-ab': R + np.einsum('abcd...->bacd...', R),
+                'antisym-cd': R + np.einsum('abcd...->abdc...', R),
+                'pair': R - np.einsum('abcd...->cdab...', R),
+                'cyclic': (R + np.einsum('abcd...->acdb...', R)
+                           + np.einsum('abcd...->adbc...', R))}
+            for tn, T in tests.items():
+                e = float(np.abs(T).max() / sc)
+                if not e < 1e-11:
+                    bad.append((name, tn, e))
+    return {'task': list(task), 'bad': bad}
+
+
 def safe_division_cases(run):
     from aurel.maths import safe_division
     n = 0
@@ -512,6 +565,14 @@ def main(tier):
             run.violation(f"C08:identity:{b[0]}:{r['task'][0]}",
                           f"{r['task']}: {b}"[:400],
                           {'task': r['task'], 'identity': b[0]})
+    ctasks = [(ia, ib, ig, ik, fl) for ia in range(3) for ib in range(3)
+              for ig in range(4) for ik in range(1, 4) for fl in (False, True)]
+    for t, r in zip(ctasks, runner.pmap(curvature_symmetry_case, ctasks,
+                                        chunksize=8)):
+        for b in r['bad']:
+            run.violation(f"C08:symmetry:{b[0]}:{b[1]}",
+                          f"uniform data point {t}: {b}", {'sym': list(t)})
+    n2 += len(ctasks) * 8
     n3 = safe_division_cases(run)
     run.sample({'alphabet point': {'alpha': 0.5, 'beta': [-1, 0, 0.7],
                                    'gamma': 'SPD menu #7 (cond ~1e5)',
